@@ -36,6 +36,17 @@ Proof.
   induction l as [|a l IH]; intros H; [reflexivity|]. cbn. rewrite app_length, IH, H; [reflexivity | left; reflexivity | intros; apply H; right; assumption].
 Qed.
 
+(* block p of a flat_map whose pieces all have length c is the piece of the p-th element *)
+Lemma flat_map_block {A B} (f : A -> list B) c (l : list A) : (forall a, length (f a) = c) ->
+  forall p d, p < length l -> firstn c (skipn (p * c) (flat_map f l)) = f (nth p l d).
+Proof.
+  intros Hc. induction l as [|a r IH]; intros p d Hp; [cbn in Hp; lia|]. cbn [flat_map]. destruct p as [|p].
+  - cbn [Nat.mul skipn nth]. rewrite <- (Hc a) at 1. rewrite firstn_app, Nat.sub_diag, firstn_all. cbn [firstn]. apply app_nil_r.
+  - cbn [nth]. replace (S p * c) with (length (f a) + p * c) by (rewrite Hc; lia).
+    rewrite skipn_app. replace (length (f a) + p * c - length (f a)) with (p * c) by lia.
+    rewrite (skipn_all2 (f a)) by lia. cbn [app]. apply IH. cbn in Hp. lia.
+Qed.
+
 (* ---- the generated index list ---- *)
 Lemma ijk_in l m n i j k : In (i, j, k) (c15_ijklist l m n) <-> i < l /\ j < m /\ k < n.
 Proof.
